@@ -15,6 +15,15 @@ periods through the dispatch / divide helpers, weeks, weekdays, ETERNITY), 0–5
 requests (`calculate`, `calculate_add`, `calculate_divide`) and 1–5 further calculations (among them NEW position- and
 role-dependent ones: `value_from_first_person`, `value_nth_person`, `sum(role=…)`, `nb_persons(role=…)`).
 
+* Every scenario also fixes: how the two functions are called (directory missing / parent missing / existing
+  and empty / trailing separator / `pathlib.Path` / keyword arguments / extra keyword arguments; a directory
+  that already holds an older dump or one stale variable directory — refused, `T|stale`); which system object
+  restores (the very object, `clone()`, a reform that changes nothing); whether the same dump is restored
+  twice, or the restored simulation is dumped again and that dump restored (`dmp rt2`); foreign entries put
+  into the dump between the two calls (`X|`, `XF|`, `XD|`: files, hidden files, sub-directories inside a
+  variable directory, a top-level file, an empty directory named after a variable); `delete_arrays` among
+  the requests before the dump; the container handed to `set_input` (array of the variable's dtype, wider
+  array, Python list, date objects, enum names / indices / EnumArray).
 * The generator runs the scenario on the real engine and writes the *state reached* (entity
   structure + both stores of every holder) into the line: the model replays that state through
   `dump` / `restore` and prints the restored state, the files written and, for every further
@@ -37,15 +46,17 @@ import traceback
 from ..core import Case, Prop
 from .. import dumputil as du
 
-QUICK_N = 2000
-THOROUGH_N = 12000
+QUICK_N = 1500
+THOROUGH_N = 9000
 
 PERIODS = {
     "month": ["2018-01", "2018-02", "2017-12", "2016-02", "2018-12", "1000-01", "9999-12"],
     "year": ["2018", "2017", "year:2018-03", "year:2017-07", "year:2016-12", "1000", "9999"],
     "day": ["2018-01-31", "2020-02-29", "2018-03-01", "2016-12-31", "1000-01-01", "9999-12-31"],
-    "week": ["2015-W53", "2018-W01", "2020-W53", "2019-W01", "2021-W01", "2018-W52"],
-    "weekday": ["2018-W01-3", "2015-W53-7", "2020-W53-5", "2019-W01-1", "2021-W01-7"],
+    "week": ["2015-W53", "2018-W01", "2020-W53", "2019-W01", "2021-W01", "2018-W52", "2020-W01", "2025-W01",
+             "2026-W53", "2018-W09", "2018-W10"],
+    "weekday": ["2018-W01-3", "2015-W53-7", "2020-W53-5", "2019-W01-1", "2021-W01-7", "2020-W01-1", "2026-W53-7",
+                "2018-W09-7", "2018-W10-1", "2025-W01-2"],
     "eternity": ["ETERNITY", "eternity", "2018-01", "2018", "2018-W01"],
 }
 LONG = {   # inputs the dispatch / divide helpers spread over the definition period
@@ -76,6 +87,13 @@ POSITION_REQUESTS = [("calculate", "{k}_first", "month"), ("calculate", "{k}_nth
 GROUP_REQUESTS = POSITION_REQUESTS + [("calculate", "{k}_c_y", "year"), ("calculate", "{k}_nb", "month"),
                   ("calculate", "proj_{k}", "year"), ("calculate", "{k}_e_et", "eternity"),
                   ("calculate", "{k}_s_m", "month")]
+
+#: foreign entries put into a variable directory after the dump (`/` = a sub-directory); OnDiskStorage.restore
+#: skips every name that does not end with `.npy`; `.npy` alone ends with it and is not a period
+IN_VAR_NAMES = ["notes.txt", ".hidden", "README", "2018-01.npy.bak", "2018-01.npy~", "sub/", ".npy.tmp", "x.npyy",
+                "2018-01", "npy", ".npy"]
+#: foreign top-level files: restore_simulation reads every top-level name but __entities__ as a variable
+TOP_NAMES = [".DS_Store", "README.md", "notes"]
 
 # --------------------------------------------------------------------------------------
 # scenarios
@@ -170,7 +188,29 @@ def gen_scenario(rng: random.Random, kind: str = "any") -> dict:
         return (kind_, var, per)
 
     sc["requests"] = [pick_request() for _ in range(rng.randint(0, 5))]
+    if sc["requests"] and rng.random() < 0.25:
+        # a top-level delete_arrays (whole variable, one period, or a containing period) before the dump
+        _k, var, per = rng.choice(sc["requests"])
+        unit = info["inputs"][var][1] if var in info["inputs"] else info["formulas"][var][0]
+        where = rng.choice([None, per, rng.choice(PERIODS["year"][:3]) if unit in ("month", "day") else per])
+        sc["requests"].insert(rng.randint(1, len(sc["requests"])), ("delete_arrays", var, where))
+        if inputs and rng.random() < 0.5:
+            v2, p2, _s = rng.choice(inputs)
+            sc["requests"].append(("delete_arrays", v2, rng.choice([None, p2])))
     sc["post"] = [pick_request() for _ in range(rng.randint(1, 3))]
+    # how the two functions are called, what happens to the directory, which system restores
+    sc["dump_arg"] = rng.choice(["plain", "plain", "nested", "existing", "slash", "pathlib",
+                                 rng.choice(["stale", "stale-var", "stale-var", "plain", "plain"])])
+    sc["restore_arg"] = rng.choice(["positional", "positional", "keyword", "pathlib", "kwargs", "slash"])
+    sc["restore_tbs"] = rng.choice(["same", "same", "same", "clone", "reform"])
+    sc["again"] = rng.choice([None, None, "restore2", "restore2", "redump", "redump"])
+    if rng.random() < 0.2:
+        extra = []
+        for _ in range(rng.randint(1, 2)):
+            kind_ = rng.choice(["in-var", "in-var", "in-var", "dir", "dir", "top"])
+            name = rng.choice(IN_VAR_NAMES) if kind_ == "in-var" else rng.choice(TOP_NAMES) if kind_ == "top" else ""
+            extra.append((kind_, rng.randrange(1 << 20), name))
+        sc["extra"] = extra
     # structural fields in a non-default state (a field only generated at its default is not checked)
     roled = [g for g in info["groups"] if _roles_of(sid, g)]
     if roled and rng.random() < 0.75:
@@ -197,7 +237,25 @@ def poke_scenario(rng: random.Random) -> dict:
     """states outside the statement's quantifier, kept to tie the model's other branches:
     a twelve-month key, an array under a neutralised variable, an unaligned period"""
     sc = gen_scenario(rng, rng.choice(["0", "1", "2"]))
-    which = rng.choice(["month12-in-month", "month12-in-year", "month12-and-year", "neutralised", "unaligned"])
+    which = rng.choice(["month12-in-month", "month12-in-year", "month12-and-year", "neutralised", "unaligned", "sized", "sized"])
+    for k in ("extra",):
+        sc.pop(k, None)
+    if sc.get("dump_arg") in ("stale", "stale-var"):
+        sc["dump_arg"] = "plain"
+    if which == "sized":
+        # keys of several units (no public call stores them): the file names are `unit:start:size` texts,
+        # the restore refuses them (PeriodMismatchError); ETERNITY variables convert them
+        sc["tag"] = which
+        sc["post"] = []
+        var, per = rng.choice([("f_y", "year/2018,1,1/2"), ("f_y", "year/2017,7,1/3"), ("f_d", "day/2018,1,30/3"),
+                               ("f_d", "day/2020,2,28/10"), ("f_w", "week/2018,1,1/2"), ("f_w", "week/2018,2,26/12"),
+                               ("f_w", "week/2019,12,30/3"), ("f_wd", "weekday/2018,1,3/2"), ("f_wd", "weekday/2021,1,1/4"),
+                               ("f_wd", "weekday/2018,3,4/11"), ("f_m", "month/2018,1,1/3"), ("f_m", "month/2017,11,1/24"),
+                               ("f_w", "week/2018,3,5/2"), ("f_w", "week/2018,12,24/2"), ("f_wd", "weekday/2018,3,5/2"),
+                               ("f_wd", "weekday/2018,12,30/3"), ("f_y", "year/2018,1,1/1"),
+                               ("f_et", "year/2018,1,1/2"), ("f_et", "week/2018,1,1/2")])
+        sc["pokes"] = [(var, per, rng.randrange(1 << 30))]
+        return sc
     sc["tag"] = which
     s = rng.randrange(1 << 30)
     if which.startswith("month12"):
@@ -223,12 +281,37 @@ def poke_scenario(rng: random.Random) -> dict:
 # running a scenario on the real code
 
 
+def tamper_plan(sc, sim, tbs) -> list:
+    """the foreign entries of the scenario, bound to the variables the simulation has / has not a holder for"""
+    holders = sorted(n for pop in sim.populations.values() for n in pop._holders)
+    free = sorted(set(tbs.variables) - set(holders))
+    plan = []
+    for kind, seed, name in sc.get("extra", []):
+        if kind == "in-var" and holders:
+            plan.append(("X", holders[seed % len(holders)], name))
+        elif kind == "top":
+            plan.append(("XF", name))
+        elif kind == "dir" and free:
+            plan.append(("XD", free[seed % len(free)]))
+    return plan
+
+
 def _line(sc) -> str:
     """the protocol line: the system and the state the scenario reaches on the real engine"""
     run = du.Run(sc)
     try:
         toks = du.system_tokens(run.tbs) + du.state_tokens(run.sim)
-        return f"dmp rt {len(sc.get('post', []))} " + " ".join(toks)
+        if sc.get("dump_arg") in ("stale", "stale-var"):
+            toks.append("T|stale")
+        for t in tamper_plan(sc, run.sim, run.tbs):
+            if t[0] == "X":
+                toks.append(f"X|{t[1]}|x{t[2].rstrip('/').encode().hex()}")
+            elif t[0] == "XF":
+                toks.append(f"XF|x{t[1].encode().hex()}")
+            else:
+                toks.append(f"XD|{t[1]}")
+        mode = "rt2" if sc.get("again") == "redump" else "rt"
+        return f"dmp {mode} {len(sc.get('post', []))} " + " ".join(toks)
     except Exception as e:                      # the original cannot even read its own store
         return f"dmp unreadable {type(e).__name__}"
     finally:
@@ -292,12 +375,19 @@ def make_case(sc, origin="gen", line=None) -> Case:
     for k in ("positions", "roles", "ids"):
         if sc.get(k):
             tags.append(k + ":explicit")
+    for k in ("dump_arg", "restore_arg", "restore_tbs", "again"):
+        if sc.get(k):
+            tags.append(f"{k}:{sc[k]}")
+    for e in sc.get("extra", []):
+        tags.append("extra:" + e[0])
+    if any(r[0] == "delete_arrays" for r in sc.get("requests", [])):
+        tags.append("delete_arrays")
     if tag:
         tags.append("poke:" + tag)
     return Case(line=line, payload=sc, claimed=(tag != "unaligned"), tags=tuple(tags), origin=origin)
 
 
-def _same_array(a, b):
+def _same_array(a, b, same_system=True):
     """None, or what differs between two arrays (class, dtype family, enumeration, values)"""
     import numpy
     from openfisca_core.indexed_enums import EnumArray
@@ -305,13 +395,15 @@ def _same_array(a, b):
         return "missing"
     if isinstance(a, EnumArray) != isinstance(b, EnumArray):
         return f"class {type(a).__name__} vs {type(b).__name__}"
-    if isinstance(a, EnumArray) and a.possible_values is not b.possible_values:
-        return "enumeration"
+    if isinstance(a, EnumArray):
+        ea, eb = a.possible_values, b.possible_values
+        if ea is not eb and (same_system or ea.__name__ != eb.__name__ or [m.name for m in ea] != [m.name for m in eb]):
+            return "enumeration"
     fam = lambda x: "i" if x.dtype.kind in "iu" else x.dtype.kind     # noqa: E731
     if fam(a) != fam(b):
         return f"dtype {a.dtype} vs {b.dtype}"
-    if a.dtype.kind == "S" and a.dtype != b.dtype:
-        return f"dtype {a.dtype} vs {b.dtype}"
+    if not isinstance(a, EnumArray) and a.dtype != b.dtype:
+        return f"dtype {a.dtype} vs {b.dtype}"       # (the integer width of enum indices is not claimed)
     if a.shape != b.shape:
         return f"shape {a.shape} vs {b.shape}"
     va, vb = numpy.asarray(a), numpy.asarray(b)
@@ -323,8 +415,11 @@ def _same_array(a, b):
     return None
 
 
-def _compare(orig, rest, sc):
-    """the property statement on the real objects -> list of (signature, message)"""
+def _compare(orig, rest, sc, same_system=True):
+    """the property statement on the real objects -> list of (signature, message).
+    Under the very same system object the restored roles must be the same role objects and enum arrays must
+    carry the same enumeration class; under a clone / a reform that changes nothing, the roles of the same key
+    at the same place of the entity's role list and the enumeration of the same name and members."""
     import numpy
     out = []
     for key, po in orig.populations.items():
@@ -347,12 +442,20 @@ def _compare(orig, rest, sc):
         if not numpy.array_equal(po.members_position, pr.members_position):
             out.append(("members_position", f"{key}: {po.members_position} restored as {pr.members_position}"))
         ro, rr = du.roles_of(po), du.roles_of(pr)
-        if len(ro) != len(rr) or any(a is not b for a, b in zip(ro, rr)):
+        flat_o = list(po.entity.flattened_roles)
+        flat_r = list(pr.entity.flattened_roles)
+
+        def same_role(a, b):
+            if same_system:
+                return a is b
+            return (getattr(a, "key", None) == getattr(b, "key", None) and a in flat_o and b in flat_r
+                    and flat_o.index(a) == flat_r.index(b))
+        if len(ro) != len(rr) or any(not same_role(a, b) for a, b in zip(ro, rr)):
             out.append(("members_role", f"{key}: {[getattr(r, 'key', r) for r in ro]} restored as "
                                         f"{[getattr(r, 'key', r) for r in rr]}"))
     ko, kr = du.known_arrays(orig), du.known_arrays(rest)
     for (name, p), a in ko.items():
-        why = _same_array(a, kr.get((name, p)))
+        why = _same_array(a, kr.get((name, p)), same_system)
         if why is not None:
             out.append((f"array:{why.split(' ')[0]}", f"{name}[{p}] held {a.tolist()} ({a.dtype}); restored: {why}"))
     for (name, p) in kr:
@@ -372,6 +475,88 @@ def _calc(sim, req):
 _LAST: dict = {}
 
 
+def _classify(e, run) -> str:
+    msg = f"{type(e).__name__}: {e}"
+    orig = run.sim
+    has_obj = any(a is not None and a.dtype.kind == "O" for a in du.known_arrays(orig).values())
+    trailing = any((not p.entity.is_person) and len(p.members_entity_id) > 0
+                   and int(max(p.members_entity_id)) + 1 < p.count for p in orig.populations.values())
+    if ("allow_pickle" in msg or "Object arrays" in msg) and has_obj:
+        return "str-object-array"
+    if "person_count" in msg and not run.tbs.group_entities:
+        return "restore-person-only"
+    if "int16" in msg and any(not g.flattened_roles for g in run.tbs.group_entities):
+        return "restore-roleless-group"
+    if trailing and isinstance(e, ValueError) and "length" in msg:
+        return "trailing-empty-group"
+    return f"dump-restore-raises:{type(e).__name__}"
+
+
+def _dump(sd, sim, path, form):
+    """dump_simulation under the argument spellings of the scenario"""
+    import pathlib
+    if form == "nested":                       # the parent directory does not exist either
+        path = os.path.join(path + "-parent", "dump")
+    elif form == "existing":
+        os.mkdir(path)
+    elif form in ("stale", "stale-var"):
+        # the directory holds an older dump (whole, or only one variable directory of it), with a value the
+        # simulation no longer has: it would leak into the restore if the directory were accepted
+        import shutil
+        old = path + "-old"
+        sd.dump_simulation(sim, old)
+        stale = {"month": "1999-01", "year": "1999", "day": "1999-01-01", "week": "1999-W01", "weekday": "1999-W01-1"}
+        picked = None
+        for name in sorted(os.listdir(old)):
+            files = sorted(f for f in os.listdir(os.path.join(old, name)) if f.endswith(".npy")) if name != "__entities__" else []
+            unit = sim.tax_benefit_system.variables[name].definition_period if files else None
+            unit = getattr(unit, "value", unit)
+            if files and unit in stale:
+                shutil.copy(os.path.join(old, name, files[0]), os.path.join(old, name, stale[unit] + ".npy"))
+                picked = name
+                break
+        if form == "stale" or picked is None:
+            shutil.copytree(old, path)
+        else:
+            os.mkdir(path)
+            shutil.copytree(os.path.join(old, picked), os.path.join(path, picked))
+    arg = path + "/" if form == "slash" else pathlib.Path(path) if form == "pathlib" else path
+    if form == "pathlib":
+        sd.dump_simulation(simulation=sim, directory=arg)
+    else:
+        sd.dump_simulation(sim, arg)
+    return path
+
+
+def _restore(sd, path, tbs, form):
+    import pathlib
+    if form == "keyword":
+        return sd.restore_simulation(directory=path, tax_benefit_system=tbs)
+    if form == "pathlib":
+        return sd.restore_simulation(pathlib.Path(path), tbs)
+    if form == "kwargs":
+        return sd.restore_simulation(path, tbs, trace=True, anything="ignored")
+    if form == "slash":
+        return sd.restore_simulation(path + os.sep, tbs)
+    return sd.restore_simulation(path, tbs)
+
+
+def _tamper(path, plan):
+    for t in plan:
+        if t[0] == "X":
+            target = os.path.join(path, t[1], t[2].rstrip("/"))
+            if t[2].endswith("/"):
+                os.mkdir(target)
+            else:
+                with open(target, "w") as f:
+                    f.write("not an array")
+        elif t[0] == "XF":
+            with open(os.path.join(path, t[1]), "w") as f:
+                f.write("not a directory")
+        else:
+            os.mkdir(os.path.join(path, t[1]))
+
+
 def _run(case: Case):
     """-> (canonical text, oracle verdict)"""
     sc = case.payload
@@ -387,41 +572,52 @@ def _run(case: Case):
             sig = "str-object-array" if "allow_pickle" in msg or "Object arrays" in msg else f"original-unreadable:{type(e).__name__}"
             return "ERR-STATE", (sig, "the dumped simulation cannot read its own disk store: " + msg[:200])
         poked = bool(sc.get("tag"))
-        d = os.path.join(run.tmp, "dump")
+        plan = tamper_plan(sc, run.sim, run.tbs)
+        kind = sc.get("restore_tbs", "same")
+        rtbs = du.restore_system(sc["sid"], kind)
+        same_system = kind == "same"
+        # ---- dump
         try:
-            sd.dump_simulation(run.sim, d)
-            rest = sd.restore_simulation(d, run.tbs)
+            d = _dump(sd, run.sim, os.path.join(run.tmp, "dump"), sc.get("dump_arg", "plain"))
         except Exception as e:
-            if poked:
-                return "ERR", None
-            msg = f"{type(e).__name__}: {e}"
-            orig = run.sim
-            has_obj = any(a is not None and a.dtype.kind == "O" for a in du.known_arrays(orig).values())
-            trailing = any((not p.entity.is_person) and len(p.members_entity_id) > 0
-                           and int(max(p.members_entity_id)) + 1 < p.count for p in orig.populations.values())
-            if ("allow_pickle" in msg or "Object arrays" in msg) and has_obj:
-                sig = "str-object-array"
-            elif "person_count" in msg and not run.tbs.group_entities:
-                sig = "restore-person-only"
-            elif "int16" in msg and any(not g.flattened_roles for g in run.tbs.group_entities):
-                sig = "restore-roleless-group"
-            elif trailing and isinstance(e, ValueError) and "length" in msg:
-                sig = "trailing-empty-group"
-            else:
-                sig = f"dump-restore-raises:{type(e).__name__}"
-            return "ERR", (sig, "dump_simulation / restore_simulation raised " + msg[:300].replace("\n", " "))
-        verdicts = [] if poked else _compare(run.sim, rest, sc)
-        toks = du.canonical_tokens(rest, d)          # before the further calculations add to the stores
+            if poked or sc.get("dump_arg") in ("stale", "stale-var"):
+                return "ERR", None             # a directory that is not empty is refused: nothing is restored wrongly
+            return "ERR", (_classify(e, run), f"dump_simulation raised {type(e).__name__}: {e}"[:300].replace("\n", " "))
+        listing = du.dir_listing(d)
+        _tamper(d, plan)
+        # ---- restore (twice / dump again and restore that)
+        restored = []
+        try:
+            restored.append(_restore(sd, d, rtbs, sc.get("restore_arg", "positional")))
+            if sc.get("again") == "restore2":
+                restored.append(_restore(sd, d, rtbs, "positional"))
+            elif sc.get("again") == "redump":
+                d2 = _dump(sd, restored[0], os.path.join(run.tmp, "dump2"), "plain")
+                listing = du.dir_listing(d2)
+                restored.append(_restore(sd, d2, rtbs, "positional"))
+        except Exception as e:
+            head = "ERR" if not restored else "ERR2"
+            if poked or plan:
+                return f"{head} {listing}", None     # not (only) what dump_simulation wrote: the statement is silent
+            return f"{head} {listing}", (_classify(e, run), "restore_simulation raised " +
+                                         f"{type(e).__name__}: {e}"[:300].replace("\n", " "))
+        verdicts = []
+        if not poked:
+            for i, rest in enumerate(restored):
+                verdicts += [(sig, ("" if i == 0 else f"[{sc['again']}] ") + msg)
+                             for sig, msg in _compare(run.sim, rest, sc, same_system)]
+        rest = restored[-1]
+        toks = du.canonical_tokens(rest, listing)      # before the further calculations add to the stores
         flags = ""
         for req in sc.get("post", []):
             a, b = _calc(run.sim, req), _calc(rest, req)
-            same = a[0] == b[0] and (a[1] == b[1] if a[0] == "raise" else _same_array(a[1], b[1]) is None)
+            same = a[0] == b[0] and (a[1] == b[1] if a[0] == "raise" else _same_array(a[1], b[1], same_system) is None)
             flags += "A" if same else "D"
             if not same and not poked:
                 show = lambda r: r[1] if r[0] == "raise" else r[1].tolist()      # noqa: E731
                 verdicts.append(("calculation-differs", f"{req}: original {show(a)}, restored {show(b)}"))
         text = " ".join(toks + ["C|" + flags])
-        del rest
+        del rest, restored
         return text, (verdicts[0] if verdicts else None)
     finally:
         run.close()
@@ -585,6 +781,7 @@ PROP = Prop(
     nontrivial=nontrivial,
     corpus=corpus,
     neighbours=neighbours,
+    search_budget_factor=3,
     enumerate_thorough=enumerate_thorough,
     exhaustive_note="every input variable of the generated systems (value types float/int/bool/str/str with max_length/date/Enum x "
                     "definition periods month/year/day/week/weekday/eternity x dispatch/divide helpers x person/group entity) x every "
@@ -604,6 +801,12 @@ PROP = Prop(
         "agreement of further calculations is a theorem only as 'any function of the observable state agrees' "
         "(C19_calculations_agree); that the engine is such a function is C01's theorem and is exercised here by the correspondence",
         "variable names are Python identifiers other than '__entities__'; entity keys and holder names are unique (dict keys)",
+        "restoring under a clone / a no-op reform of the dumping system is read as 'the same tax-benefit system': roles are then "
+        "compared by key and place in the entity's role list, enumerations by name and members (identity under the very object)",
+        "a dump directory someone added entries to, and a target directory that is not empty, are outside the statement: the oracle "
+        "is silent when such a call raises and applies in full when it succeeds; the model answers them (C19_restore_ignores_other_files, "
+        "C19_restore_unknown_variable, C19_dump_refuses_nonempty) and the correspondence binds the code to it",
+        "OnDiskStorage.delete (delete_arrays before the dump) only shapes the dumped state; OnDiskStorage.__del__ directory clean-up is C17's",
     ],
     partial_theorems=[],
     level_text="theorems over the model of dump/restore for all simulations (unbounded populations, stores, periods); "
